@@ -68,7 +68,8 @@ def rand_grammar(rng, max_t=5, max_n=5, max_alt=3, max_len=4, p_prec=0.5, p_lit=
         nN = rng.randint(6, 14)
     tokens = []
     lits = []
-    litchars = "+-*/()=<>!&^~,.#@%\""
+    litchars = list("+-*/()=<>!&^~,.#@%\"")
+    rng.shuffle(litchars)
     for i in range(nT):
         if rng.random() < p_lit and len(lits) < len(litchars):
             c = litchars[len(lits)]
